@@ -2340,7 +2340,14 @@ class Problem(object, metaclass=ProblemMetaclass):
                     else:
                         val = outputs[name]
 
-                    for abs_name in resolver.absnames(name):
+                    if resolver.is_prom(name, 'output'):
+                        abs_names = resolver.absnames(name, 'output')
+                    else:
+                        # an auto_ivc output is recorded under the promoted name of the inputs it
+                        # feeds.  Its value is in the units of the source, not of each input.
+                        abs_names = (resolver.source(name),)
+
+                    for abs_name in abs_names:
                         if set_later(abs_name):
                             continue
 
